@@ -34,6 +34,11 @@ static std::string agree_guarded(const std::vector<std::pair<std::string, Thunk>
 #define FORM(name, expr) fs.push_back(std::make_pair(std::string(name), Thunk([&]() -> std::string { return expr; })))
 typedef std::vector<std::pair<std::string, std::string> > Forms;
 
+// an empty input may be handed over as (nullptr, 0) or as (valid pointer, 0)
+static const uint8_t g_dummy[1] = {0};
+static const uint8_t* pn(const Bytes& b) { return b.empty() ? (const uint8_t*)0 : b.data(); }
+static const uint8_t* pv(const Bytes& b) { return b.empty() ? g_dummy : b.data(); }
+
 static TypeHash type_of(const std::string& t) {
     if (t == "sha1") return TypeHash::SHA1;
     if (t == "sha256") return TypeHash::SHA256;
@@ -69,18 +74,21 @@ static std::string sha_forms(const std::string& t, const Bytes& m) {
     std::string s = str_of(m);
     if (t == "sha1") {
         uint8_t d[20]; hmac_hash::sha1(m.data(), m.size(), d); f.push_back(std::make_pair("raw", hx(d, 20)));
+        if (m.empty()) { uint8_t e[20]; hmac_hash::sha1(pn(m), 0, e); f.push_back(std::make_pair("raw-null", hx(e, 20))); hmac_hash::sha1(pv(m), 0, e); f.push_back(std::make_pair("raw-valid", hx(e, 20))); }
         f.push_back(std::make_pair("ptrvec", hx(hmac_hash::sha1(m.data(), m.size()))));
         f.push_back(std::make_pair("vec", hx(hmac_hash::sha1(m))));
         f.push_back(std::make_pair("vecchar", hx(hmac_hash::sha1(chars_of(m)))));
         f.push_back(std::make_pair("strhex", hmac_hash::sha1(s)));
     } else if (t == "sha256") {
         uint8_t d[32]; hmac_hash::sha256(m.data(), m.size(), d); f.push_back(std::make_pair("raw", hx(d, 32)));
+        if (m.empty()) { uint8_t e[32]; hmac_hash::sha256(pn(m), 0, e); f.push_back(std::make_pair("raw-null", hx(e, 32))); hmac_hash::sha256(pv(m), 0, e); f.push_back(std::make_pair("raw-valid", hx(e, 32))); }
         f.push_back(std::make_pair("ptrvec", hx(hmac_hash::sha256(m.data(), m.size()))));
         f.push_back(std::make_pair("vec", hx(hmac_hash::sha256(m))));
         f.push_back(std::make_pair("vecchar", hx(hmac_hash::sha256(chars_of(m)))));
         f.push_back(std::make_pair("strhex", hmac_hash::sha256(s)));
     } else {
         uint8_t d[64]; hmac_hash::sha512(m.data(), m.size(), d); f.push_back(std::make_pair("raw", hx(d, 64)));
+        if (m.empty()) { uint8_t e[64]; hmac_hash::sha512(pn(m), 0, e); f.push_back(std::make_pair("raw-null", hx(e, 64))); hmac_hash::sha512(pv(m), 0, e); f.push_back(std::make_pair("raw-valid", hx(e, 64))); }
         f.push_back(std::make_pair("ptrvec", hx(hmac_hash::sha512(m.data(), m.size()))));
         f.push_back(std::make_pair("vec", hx(hmac_hash::sha512(m))));
         f.push_back(std::make_pair("vecchar", hx(hmac_hash::sha512(chars_of(m)))));
@@ -97,6 +105,10 @@ static std::string sha_forms(const std::string& t, const Bytes& m) {
 static std::string hmac_forms(TypeHash ty, const Bytes& k, const Bytes& m) {
     Forms f;
     f.push_back(std::make_pair("ptr", hx(get_hmac(k.data(), k.size(), m.data(), m.size(), ty))));
+    if (k.empty() || m.empty()) {
+        f.push_back(std::make_pair("ptr-null-empties", hx(get_hmac(pn(k), k.size(), pn(m), m.size(), ty))));
+        f.push_back(std::make_pair("ptr-valid-empties", hx(get_hmac(pv(k), k.size(), pv(m), m.size(), ty))));
+    }
     f.push_back(std::make_pair("vec", hx(get_hmac(k, m, ty))));
     f.push_back(std::make_pair("vecchar", hx(get_hmac(chars_of(k), chars_of(m), ty))));
     return agree(f);
@@ -187,6 +199,7 @@ static std::string run(const std::vector<std::string>& a) {
         secure_buffer<uint8_t> sk(k.size()); if (!k.empty()) memcpy(sk.data(), k.data(), k.size());
         std::vector<std::pair<std::string, Thunk> > fs;
         FORM("ptr", ok_int(get_hotp_code(k.data(), k.size(), c, d, ty)));
+        if (k.empty()) { FORM("ptr-null-key", ok_int(get_hotp_code(pn(k), 0, c, d, ty))); FORM("ptr-valid-key", ok_int(get_hotp_code(pv(k), 0, c, d, ty))); }
         FORM("vec", ok_int(get_hotp_code(k, c, d, ty)));
         FORM("vecchar", ok_int(get_hotp_code(chars_of(k), c, d, ty)));
         FORM("secure", ok_int(get_hotp_code(sk, c, d, ty)));
@@ -252,12 +265,20 @@ static std::string run(const std::vector<std::string>& a) {
         std::vector<std::pair<std::string, Thunk> > fs;
         if (pep) {
             FORM("ptr", "ok " + hx(pbkdf2_with_pepper(P.data(), P.size(), S.data(), S.size(), PEP.data(), PEP.size(), c, dk, prf)));
+            if (P.empty() || PEP.empty()) {
+                FORM("ptr-null-empties", "ok " + hx(pbkdf2_with_pepper(pn(P), P.size(), S.data(), S.size(), pn(PEP), PEP.size(), c, dk, prf)));
+                FORM("ptr-valid-empties", "ok " + hx(pbkdf2_with_pepper(pv(P), P.size(), S.data(), S.size(), pv(PEP), PEP.size(), c, dk, prf)));
+            }
             FORM("vec", "ok " + hx(pbkdf2_with_pepper(P, S, PEP, c, dk, prf)));
             FORM("vecchar", "ok " + hx(pbkdf2_with_pepper(chars_of(P), chars_of(S), chars_of(PEP), c, dk, prf)));
             FORM("str", "ok " + hx(pbkdf2_with_pepper(str_of(P), str_of(S), str_of(PEP), c, dk, prf)));
             FORM("secure", "ok " + hx(pbkdf2_with_pepper(sP, sS, sPEP, c, dk, prf)));
         } else {
             FORM("ptr", "ok " + hx(pbkdf2(P.data(), P.size(), S.data(), S.size(), c, dk, prf)));
+            if (P.empty()) {
+                FORM("ptr-null-password", "ok " + hx(pbkdf2(pn(P), 0, S.data(), S.size(), c, dk, prf)));
+                FORM("ptr-valid-password", "ok " + hx(pbkdf2(pv(P), 0, S.data(), S.size(), c, dk, prf)));
+            }
             FORM("vec", "ok " + hx(pbkdf2(P, S, c, dk, prf)));
             FORM("vecchar", "ok " + hx(pbkdf2(chars_of(P), chars_of(S), c, dk, prf)));
             FORM("str", "ok " + hx(pbkdf2(str_of(P), str_of(S), c, dk, prf)));
